@@ -17,7 +17,55 @@ func verifCount(s, sub string) int { return strings.Count(s, sub) }
 func VerifHarness_C17_mysql() {
 	sch := schema.New("main")
 	set := verifChoice("set", 8)
-	changes := verifChangeSet(set, sch, schema.New("other"))
+	verifC17Plan(verifChangeSet(set, sch, schema.New("other")))
+}
+
+// Sequence family: one ModifyTable whose sub-changes are an ordered pair drawn from a catalogue of
+// nine (reversible and irreversible ones in either order): the flag of the whole ALTER TABLE group
+// must not depend on which sub-change comes last.
+func VerifHarness_C17_mysql_seq() {
+	sch := schema.New("main")
+	t0 := schema.NewTable("t0").SetSchema(sch)
+	id := schema.NewIntColumn("id", "int")
+	c1 := schema.NewStringColumn("c1", "varchar", schema.StringSize(10))
+	r := schema.NewIntColumn("r", "int")
+	t0.AddColumns(id, c1, r).SetPrimaryKey(schema.NewPrimaryKey(id))
+	t0.AddIndexes(schema.NewIndex("i0").AddColumns(c1))
+	k0 := schema.NewCheck().SetName("k0").SetExpr("id > 0")
+	t0.AddChecks(k0)
+	t1 := schema.NewTable("t1").SetSchema(sch).AddColumns(schema.NewIntColumn("id", "int"))
+	t1.SetPrimaryKey(schema.NewPrimaryKey(t1.Columns[0]))
+	fk := schema.NewForeignKey("f0").SetTable(t0).AddColumns(r).SetRefTable(t1).AddRefColumns(t1.Columns[0])
+	cat := func(i int) schema.Change {
+		switch i {
+		case 0:
+			return &schema.AddColumn{C: schema.NewIntColumn("c2", "int")}
+		case 1:
+			return &schema.DropColumn{C: r}
+		case 2:
+			return &schema.AddCheck{C: schema.NewCheck().SetExpr("r > 0")}
+		case 3:
+			return &schema.AddCheck{C: schema.NewCheck().SetName("k1").SetExpr("r > 1")}
+		case 4:
+			return &schema.DropCheck{C: k0}
+		case 5:
+			return &schema.AddForeignKey{F: fk}
+		case 6:
+			return &schema.ModifyColumn{From: c1, To: schema.NewStringColumn("c1", "varchar", schema.StringSize(20)), Change: schema.ChangeType}
+		case 7:
+			return &schema.AddIndex{I: schema.NewIndex("i1").AddColumns(id)}
+		}
+		return &schema.DropIndex{I: t0.Indexes[0]}
+	}
+	a := verifChoice("first", 9)
+	b := verifChoice("second", 8)
+	if b >= a {
+		b++
+	}
+	verifC17Plan([]schema.Change{&schema.ModifyTable{T: t0, Changes: []schema.Change{cat(a), cat(b)}}})
+}
+
+func verifC17Plan(changes []schema.Change) {
 	empty := ""
 	p, err := DefaultPlan.PlanChanges(context.Background(), "p", changes, func(o *migrate.PlanOptions) { o.SchemaQualifier = &empty })
 	verifAssert(err == nil, "catalogue change set is planned")
@@ -44,7 +92,7 @@ func VerifHarness_C17_mysql() {
 		case strings.HasPrefix(fwd, "ALTER TABLE"):
 			verifAssert(verifCount(fwd, "ADD COLUMN") == verifCount(rev, "DROP COLUMN"), "every added column is dropped by the reverse")
 			verifAssert(verifCount(fwd, "DROP COLUMN") == verifCount(rev, "ADD COLUMN"), "every dropped column is re-added by the reverse")
-			verifAssert(verifCount(fwd, "ADD CONSTRAINT") == verifCount(rev, "DROP CONSTRAINT")+verifCount(rev, "DROP FOREIGN KEY")+verifCount(rev, "DROP CHECK"), "every added constraint is dropped by the reverse")
+			verifAssert(verifCount(fwd, "ADD CONSTRAINT")+verifCount(fwd, "ADD CHECK") == verifCount(rev, "DROP CONSTRAINT")+verifCount(rev, "DROP FOREIGN KEY")+verifCount(rev, "DROP CHECK"), "every added constraint is dropped by the reverse")
 		case strings.HasPrefix(fwd, "CREATE INDEX"), strings.HasPrefix(fwd, "CREATE UNIQUE INDEX"):
 			verifAssert(strings.HasPrefix(rev, "DROP INDEX"), "CREATE INDEX is reversed by DROP INDEX")
 		case strings.HasPrefix(fwd, "DROP INDEX"):
